@@ -16,6 +16,7 @@ import (
 	"reflect"
 	"sort"
 	"strings"
+	"sync"
 	"testing"
 	"unicode/utf8"
 
@@ -690,10 +691,54 @@ func require(m *mon.M, only int, name string, min int64) {
 	}
 }
 
-func report(m *mon.M, outs []caseOut) {
-	for i := range outs {
-		for _, v := range outs[i].viols {
-			m.Violation(v.sig, v.detail, v.replay)
+// collector keeps, per signature, the witness of the lowest case index and a count, so that the
+// result is the same whatever the goroutine interleaving and memory stays bounded on a defective tree.
+type collector struct {
+	mu sync.Mutex
+	e  map[string]*collEntry
+}
+
+type collEntry struct {
+	idx, seq, n int
+	v           viol
+}
+
+func (c *collector) flush(idx int, out *caseOut) {
+	if len(out.viols) == 0 {
+		return
+	}
+	c.mu.Lock()
+	defer c.mu.Unlock()
+	if c.e == nil {
+		c.e = map[string]*collEntry{}
+	}
+	for seq, v := range out.viols {
+		e := c.e[v.sig]
+		if e == nil {
+			c.e[v.sig] = &collEntry{idx: idx, seq: seq, n: 1, v: v}
+			continue
+		}
+		e.n++
+		if idx < e.idx {
+			e.idx, e.seq, e.v = idx, seq, v
+		}
+	}
+}
+
+func (c *collector) report(m *mon.M) {
+	var es []*collEntry
+	for _, e := range c.e {
+		es = append(es, e)
+	}
+	sort.Slice(es, func(i, j int) bool {
+		if es[i].idx != es[j].idx {
+			return es[i].idx < es[j].idx
+		}
+		return es[i].seq < es[j].seq
+	})
+	for _, e := range es {
+		for k := 0; k < e.n; k++ {
+			m.Violation(e.v.sig, e.v.detail, e.v.replay)
 		}
 	}
 }
@@ -813,11 +858,13 @@ func TestVerif_C17_Documents(t *testing.T) {
 	require(m, only, "seg_1byte", int64(n/2))
 	require(m, only, "seg_marker-boundary", int64(n/2))
 	require(m, only, "invalid_docs_checked", int64(n/100))
-	outs := make([]caseOut, n)
+	coll := &collector{}
 	mon.Parallel(n, func(w, i int) {
 		if only != -1 && i != only {
 			return
 		}
+		var out caseOut
+		defer coll.flush(i, &out)
 		r := m.Rand("doc", i)
 		o := &docOpts{}
 		switch x := r.Intn(100); {
@@ -851,7 +898,7 @@ func TestVerif_C17_Documents(t *testing.T) {
 		dec, plain := emit(r, o, toks, f)
 		_, perr := decodeStd(plain, true)
 		if valid && perr != nil {
-			outs[i].viols = append(outs[i].viols, viol{"harness:c17:own-text-rejected", fmt.Sprintf("%v: %q", perr, clipS(plain)), nil})
+			out.viols = append(out.viols, viol{"harness:c17:own-text-rejected", fmt.Sprintf("%v: %q", perr, clipS(plain)), nil})
 			return
 		}
 		if !valid && perr == nil {
@@ -865,9 +912,9 @@ func TestVerif_C17_Documents(t *testing.T) {
 			m.Sample(map[string]interface{}{"decorated": string(dec), "undecorated": string(plain)})
 		}
 		segs := []int{segWhole, segByte, segRandom, segMarker}
-		checkDoc(m, &outs[i], r, "doc", i, dec, plain, f, segs)
+		checkDoc(m, &out, r, "doc", i, dec, plain, f, segs)
 	})
-	report(m, outs)
+	coll.report(m)
 }
 
 // ---------------------------------------------------------------------------------------------
@@ -885,11 +932,13 @@ func TestVerif_C17_Large(t *testing.T) {
 	require(m, only, "docs_region_over_64K", int64(n/3))
 	require(m, only, "docs_dense_over_64K_total", int64(n/8))
 	kinds := []string{"dense", "mid", "long-string", "long-number-array", "long-comment", "long-whitespace"}
-	outs := make([]caseOut, n)
+	coll := &collector{}
 	mon.Parallel(n, func(w, i int) {
 		if only != -1 && i != only {
 			return
 		}
+		var out caseOut
+		defer coll.flush(i, &out)
 		r := m.Rand("large", i)
 		kind := kinds[i%len(kinds)]
 		o := &docOpts{quoteMode: r.Pick(0, 1), density: 2}
@@ -996,7 +1045,7 @@ func TestVerif_C17_Large(t *testing.T) {
 		finishFeat(e)
 		dec, plain := e.dec.Bytes(), e.plain.Bytes()
 		if _, perr := decodeStd(plain, true); perr != nil {
-			outs[i].viols = append(outs[i].viols, viol{"harness:c17:own-text-rejected", fmt.Sprintf("%s: %v", kind, perr), nil})
+			out.viols = append(out.viols, viol{"harness:c17:own-text-rejected", fmt.Sprintf("%s: %v", kind, perr), nil})
 			return
 		}
 		m.Case()
@@ -1009,9 +1058,9 @@ func TestVerif_C17_Large(t *testing.T) {
 			segs = append(segs, segByte)
 		}
 		m.Classf("%s/size%dK/region%dK", kind, f.size/32768*32, f.maxGap/16384*16)
-		checkDoc(m, &outs[i], r, "large/"+kind, i, dec, plain, f, segs)
+		checkDoc(m, &out, r, "large/"+kind, i, dec, plain, f, segs)
 	})
-	report(m, outs)
+	coll.report(m)
 }
 
 // ---------------------------------------------------------------------------------------------
@@ -1091,11 +1140,13 @@ func TestVerif_C17_ShortStrings(t *testing.T) {
 	}
 	only := replayOnly(m, "short")
 	require(m, only, "evaluations", int64(len(jobs)))
-	outs := make([]caseOut, len(jobs))
+	coll := &collector{}
 	mon.Parallel(len(jobs), func(w, i int) {
 		if only != -1 && i != only {
 			return
 		}
+		var out caseOut
+		defer coll.flush(i, &out)
 		j := jobs[i]
 		r := m.Rand("short", i)
 		dec := []byte(j.c.pre + j.d.a + j.lit + j.d.b + j.c.post + j.d.end)
@@ -1105,7 +1156,7 @@ func TestVerif_C17_ShortStrings(t *testing.T) {
 			f.line, f.block = 1, 1
 		}
 		if _, perr := decodeStd(plain, true); perr != nil {
-			outs[i].viols = append(outs[i].viols, viol{"harness:c17:own-text-rejected", fmt.Sprintf("%v: %q", perr, plain), nil})
+			out.viols = append(out.viols, viol{"harness:c17:own-text-rejected", fmt.Sprintf("%v: %q", perr, plain), nil})
 			return
 		}
 		m.Case()
@@ -1116,7 +1167,7 @@ func TestVerif_C17_ShortStrings(t *testing.T) {
 			m.Count("docs_without_escaped_quote", 1)
 		}
 		m.Classf("len%d/%s/%s/escq%d", utf8.RuneCountInString(j.s), j.c.name, j.d.name, b2i(j.nesc > 0))
-		checkDoc(m, &outs[i], r, "short", i, dec, plain, f, []int{segWhole, segByte})
+		checkDoc(m, &out, r, "short", i, dec, plain, f, []int{segWhole, segByte})
 	})
-	report(m, outs)
+	coll.report(m)
 }
